@@ -181,8 +181,34 @@ func init() {
 		}
 		if f := c.fn("state", "lastStoredHeightFor"); f != nil {
 			rv := returnValues(f, 0)
-			want := "libs/math.MaxInt64((height - (height % " + cs + ")), lastHeightChanged)"
-			c.Check(len(rv) == 1 && w.expr(rv[0]) == want, "state.lastStoredHeightFor = max(height - height % checkpoint, lastHeightChanged)", w.pos(f.Pos()), want, "computed as "+fmt.Sprint(len(rv)))
+			a, b := "(height - (height % "+cs+"))", "lastHeightChanged"
+			want := "libs/math.MaxInt64(" + a + ", " + b + ")"
+			ok := len(rv) == 1 && (w.expr(rv[0]) == want || w.expr(rv[0]) == "libs/math.MaxInt64("+b+", "+a+")")
+			if !ok && len(rv) == 2 {
+				// the maximum spelled out: each operand is returned where it is not the smaller one
+				ok = true
+				seen := map[string]bool{}
+				for _, r := range returnsOf(f) {
+					ret := r.(*ssa.Return)
+					v := w.expr(ret.Results[0])
+					seen[v] = true
+					var g Guard
+					switch v {
+					case a:
+						g = guardCmp("checkpoint height is not the smaller one", q(a), ">=", q(b))
+					case b:
+						g = guardCmp("last-changed height is not the smaller one", q(b), ">=", q(a))
+					default:
+						ok = false
+						continue
+					}
+					if okg, _ := c.ge().guarded(f, ret, g, 0); !okg {
+						ok = false
+					}
+				}
+				ok = ok && seen[a] && seen[b]
+			}
+			c.Check(ok, "state.lastStoredHeightFor = max(height - height % checkpoint, lastHeightChanged)", w.pos(f.Pos()), want, "computed as "+fmt.Sprint(len(rv)))
 		}
 		if f := c.fn("state", "dbStore.LoadValidators"); f != nil {
 			fk := funcKey(f)
